@@ -14,6 +14,7 @@ package main
 import (
 	"encoding/json"
 	"fmt"
+	"sync/atomic"
 
 	"verif/harness/lib"
 )
@@ -209,12 +210,31 @@ func (engine) Decode(raw json.RawMessage) (any, error) {
 	return &c, nil
 }
 
+// hangs counts the cases of this process that ended in the watchdog. A call of the
+// implementation that never returns keeps its goroutine (a mutant that spins inside Recv keeps
+// a processor busy for good); after hangBudget such cases the remaining ones are not run any
+// more (tag "skipped-after-hang", not sent to the model): the hangs already are the verdict,
+// and the process must end within the harness time limit.
+var hangs atomic.Int32
+
+const hangBudget = 3
+
 func (engine) Run(ci any) lib.Result {
 	c := ci.(*Case)
-	if c.Mode == "seq" {
-		return runSeq(c)
+	if hangs.Load() >= hangBudget {
+		return lib.Result{Obs: map[string]string{"skipped": "earlier cases of this run hung"},
+			Tags: []string{"mode:" + c.Mode, "skipped-after-hang"}}
 	}
-	return runConc(c)
+	var res lib.Result
+	if c.Mode == "seq" {
+		res = runSeq(c)
+	} else {
+		res = runConc(c)
+	}
+	if res.Sig == "hang" {
+		hangs.Add(1)
+	}
+	return res
 }
 
 func main() { lib.Main(engine{}) }
